@@ -589,19 +589,19 @@ func TestCheck(t *testing.T) {
 	}
 	if part == "all" || part == "plans" {
 		perSession := 12
-		nSessions := ev.Pick(64, 3000)
+		nSessions := ev.Pick(64, 9000)
 		runSessions(t, run, "plans", nSessions, workers, func(si int) *violation { return planSession(t, run, si, perSession) })
 	}
 	if part == "all" || part == "twins" {
 		perSession := 8
-		nSessions := ev.Pick(12, 300)
+		nSessions := ev.Pick(12, 900)
 		runSessions(t, run, "twins", nSessions, workers, func(si int) *violation { return twinSession(t, run, si, perSession, false) })
 	}
 	if part == "race" {
 		// the twin workload under the race detector with concurrent readers: a
 		// native cache layer that shares a container with the layer below it is
 		// written by a (discarded) execution while RPC-like readers use it.
-		nSessions := ev.Pick(5, 30)
+		nSessions := ev.Pick(5, 90)
 		runSessions(t, run, "race", nSessions, 3, func(si int) *violation { return twinSession(t, run, 500+si, 6, true) })
 	}
 }
